@@ -232,6 +232,18 @@ def monotone(ctx: Ctx, rs: RustProgram) -> None:
             ok = bool(re.fullmatch(r"Some\(\(current_cycle\(\)\)\.saturating_add\((\(self\.get_mut\(\)\)|self)\.cycles\)\)", vc))
             if not ok:
                 ctx.violation("C18.3/monotone", key_of(rel, fn.qual, f"NEXT_WAKE_CYCLE.set({v})"), f"wake cycle `{v}` is not `current cycle (+ non-negative sleep)`: a task could be woken in the past or at an unrelated time", f"{rel}:{c['ln']}")
+        # every CURRENT_CYCLE.set(X): X is the function's running clock (self.clock or the local that the loop advances), never a copy
+        # of the clock saved earlier in the same call - publishing a saved copy after time has advanced moves virtual time backwards
+        for c in _tl_sets(fn.body, "CURRENT_CYCLE"):
+            n += 1
+            setc = [x for x in walk(c["args"][0]["body"]) if rs_is_mcall(x, "set")][0]
+            a0 = setc["args"][0]
+            if a0.get("k") == "path" and "::" not in a0["p"] and a0["p"] not in fn.params():
+                ds_ = [v_ for v_ in d.get(a0["p"], []) if isinstance(v_, dict)]
+                if len(d.get(a0["p"], [])) == 1 and ds_ and expr_text(ds_[0]).replace(" ", "") == "current_cycle()":
+                    ctx.violation("C18.3/monotone", key_of(rel, fn.qual, "CURRENT_CYCLE set back to a saved copy"),
+                                  f"{fn.qual} publishes `{a0['p']}` as the current cycle, a copy of the clock saved when the call began and never advanced: after the call has slept, virtual time jumps back "
+                                  "and the next task is resumed at cycles that were already passed", f"{rel}:{c['ln']}")
         # clock assignments (a setter's store of its own parameter is judged at the setter's call sites)
         def _is_clock(l_: dict) -> bool:
             if l_.get("k") == "field" and l_.get("name") == "clock":
